@@ -52,6 +52,9 @@ CHECKS = {
  "C08": dict(level="exploration", design="§4 C08",
    text="Two runtime monitors in fresh processes. (1) Linearizability of the RCU program cache: histories of concurrent Get/Compute calls on a private instance of the real cache (verifbridge.PCache), 2-12 goroutines over 1-40 keys with unique values, yielding/failing compute functions, every 5th history with 300-3000 keys to force copy-on-write growth and rehash under lock-free readers; recorded at the client boundary with an atomic logical clock and checked with porcupine v1.3.0 (partitioned by key) against a sequential map; checker timeouts are inconclusive. (2) Sequential oracle for the codecs: 2-16 goroutines released by a barrier run Marshal/Encode/Unmarshal/Pretouch/Valid/Get over types no codec exists for yet (fresh reflect.StructOf types; first rounds of each process: the recursive and embedded catalogue types), then each call is repeated alone and must give the identical result. Race-detector builds of the same workload (JIT and VM+optdec) report data races on caches, pools and generated-code tables, deduplicated by the innermost sonic frames.",
    technique="Go race detector + porcupine linearizability check of recorded client-boundary histories + sequential-oracle comparison under barrier-released contention"),
+ "C16": dict(level="exploration", design="§4 C16",
+   text="Concurrent-read monitoring of ast nodes: per case one shared node in its raw state, obtained in one of the 5 documented ways (NewRawConcurrentRead, Searcher{ConcurrentRead}, GetWithOptions(ConcurrentRead), after LoadAll(), after Load()), at the root or a seeded sub-path of documents (wide objects around the 16-pair index threshold with escaped keys, arrays, scalars, structure-random documents), is read by 2-12 goroutines released by a barrier; each runs the whole operation list (~40 reads: GetByPath or step-wise Get/Index along existing/missing/edge paths x Raw, Interface, InterfaceUseNumber, MarshalJSON, typed accessors by kind, Map, Array, TypeSafe/Valid, first child) in its own order. Oracle: the same read on a private identically obtained node, single-threaded, computed beforehand (JSON texts compared as token streams). The race-detector build (GOMAXPROCS=4) reports unsynchronised accesses of the raw->parsed conversion, deduplicated by innermost sonic frames.",
+   technique="Go race detector + sequential-oracle comparison under barrier-released concurrent readers"),
  "C18": dict(level="exploration", design="§4 C18",
    text="Metamorphic runtime monitoring of the 16 Config switches: for a switch S and a random setting R of the 15 others, the same value/document is run with R and R+S in the same process and the difference must be exactly S's documented effect (EscapeHTML == json.HTMLEscape(out_R); SortMapKeys reorders members only; NoNullSliceOrMap == out_R of the value with nil containers made empty; ValidateString == UTF-8-corrected out_R / decode of the corrected document; EncodeNullForInfOrNan via a sentinel; CompactMarshaler changes no token; marshaler switches inert on marshaler-free types; NoEncoderNewline removes only the stream newline; UseInt64/UseNumber change only interface{} numbers; CopyString/NoValidateJSONSkip inert on valid documents; DisallowUnknownFields agrees with encoding/json on which documents have unknown keys; UseUnicodeErrors inert without lone surrogates and reporting with them; CaseSensitive == encoding/json on the exact-key-filtered document), plus entry-point equivalence (encoder.Encode/EncodeInto/MarshalToString/MarshalIndent/stream encoder vs Froze().Marshal; decoder.Decoder+SetOptions/UnmarshalFromString vs Froze().Unmarshal). Runs in a JIT process and a VM-encoder+optdec process; per-switch 'fired' counters show the switch had something to act on.",
    technique="metamorphic runtime monitor (single-switch relations with encoding/json post-processors as oracles) + entry-point equivalence, seeded over types/values/documents/other switches"),
